@@ -319,6 +319,13 @@ def parse_world():
         pres, kd, st, _it = LAST(raw, le, z3.Length(hdr_fields(raw, le)[0]), ATTR_CODE['signature'])
         return z3.And(pres, kd == 2, z3.Length(st) > 255)
 
+    def nonstring_signature(cx):
+        """the header carries a field with code 8 whose value is not a string at all (a number, an array - also a falsy one)"""
+        raw = cx.a('rawMessage')
+        le = le_of(raw)
+        pres, kd, _st, _it = LAST(raw, le, z3.Length(hdr_fields(raw, le)[0]), ATTR_CODE['signature'])
+        return z3.And(pres, kd != 2)
+
     def loop_inv(cx):
         m = cx.L['m']
         mv = cx.new(m)
@@ -340,7 +347,7 @@ def parse_world():
              requires=lambda cx: [],
              ensures=post,
              raises={MarshallingError: lambda cx: z3.Or(hdr_int(cx.a('rawMessage'), le_of(cx.a('rawMessage')), 1) < 1, hdr_int(cx.a('rawMessage'), le_of(cx.a('rawMessage')), 1) > 4,
-                                                        long_signature(cx)),
+                                                        long_signature(cx), nonstring_signature(cx)),
                      IndexError: lambda cx: z3.Length(cx.a('rawMessage')) == 0,
                      TypeError: lambda cx: z3.BoolVal(False),
                      Exception: lambda cx: z3.BoolVal(True)},
